@@ -207,7 +207,11 @@ func SetExtra(key string, v any) {
 }
 
 // Main is called from TestMain of every property package.
-func Main(m *testing.M, prop string) {
+func Main(m *testing.M, prop string) { MainWith(m, prop, nil) }
+
+// MainWith is Main with a hook that runs after the tests and before the
+// statistics are written (C17 restores the captured descriptors there).
+func MainWith(m *testing.M, prop string, after func()) {
 	property = prop
 	out.Property = prop
 	out.Tier = tier
@@ -215,6 +219,9 @@ func Main(m *testing.M, prop string) {
 	out.Shard = shard
 	flag.Parse()
 	code := m.Run()
+	if after != nil {
+		after()
+	}
 	out.Completed = true
 	Flush()
 	os.Exit(code)
